@@ -252,16 +252,30 @@ func c15Body(r *Run) {
 	var cbus *cqrs.CommandBus
 	var ebus *cqrs.EventBus
 	var err error
+	// half of the runs configure the buses' and processors' hooks as pass-throughs (the documented
+	// "params.Handler.Handle(params.Message.Context(), params.Command)"): everything must hold with them as without
+	hooks := t.Chance(1, 2)
+	if hooks {
+		r.Probe("pass-through-hooks-configured")
+	}
 	if procKind == 0 {
-		cbus, err = cqrs.NewCommandBusWithConfig(capture, cqrs.CommandBusConfig{
+		cfg := cqrs.CommandBusConfig{
 			GeneratePublishTopic: func(p cqrs.CommandBusGeneratePublishTopicParams) (string, error) { return busTopic(p.CommandName, p.Command), nil },
 			Marshaler:            marsh,
-		})
+		}
+		if hooks {
+			cfg.OnSend = func(p cqrs.CommandBusOnSendParams) error { return nil }
+		}
+		cbus, err = cqrs.NewCommandBusWithConfig(capture, cfg)
 	} else {
-		ebus, err = cqrs.NewEventBusWithConfig(capture, cqrs.EventBusConfig{
+		cfg := cqrs.EventBusConfig{
 			GeneratePublishTopic: func(p cqrs.GenerateEventPublishTopicParams) (string, error) { return busTopic(p.EventName, p.Event), nil },
 			Marshaler:            marsh,
-		})
+		}
+		if hooks {
+			cfg.OnPublish = func(p cqrs.OnEventSendParams) error { return nil }
+		}
+		ebus, err = cqrs.NewEventBusWithConfig(capture, cfg)
 	}
 	if err != nil {
 		r.HarnessErr = "bus: " + err.Error()
@@ -384,6 +398,20 @@ func c15Body(r *Run) {
 	}
 	typName := func(typ int) string { return marsh.Name(c15Value(isProto, typ, 0)) }
 	nHandlers := 1 + t.Skewed(5)
+	var cmdHook cqrs.CommandProcessorOnHandleFn
+	var evHook cqrs.EventProcessorOnHandleFn
+	var grpHook cqrs.EventGroupProcessorOnHandleFn
+	if hooks {
+		cmdHook = func(p cqrs.CommandProcessorOnHandleParams) error {
+			return p.Handler.Handle(p.Message.Context(), p.Command)
+		}
+		evHook = func(p cqrs.EventProcessorOnHandleParams) error {
+			return p.Handler.Handle(p.Message.Context(), p.Event)
+		}
+		grpHook = func(p cqrs.EventGroupProcessorOnHandleParams) error {
+			return p.Handler.Handle(p.Message.Context(), p.Event)
+		}
+	}
 	switch procKind {
 	case 0:
 		p, perr := cqrs.NewCommandProcessorWithConfig(rig.Router, cqrs.CommandProcessorConfig{
@@ -393,6 +421,7 @@ func c15Body(r *Run) {
 			},
 			Marshaler:                marsh,
 			AckCommandHandlingErrors: ackCmdErrors,
+			OnHandle:                 cmdHook,
 		})
 		if perr != nil {
 			r.HarnessErr = perr.Error()
@@ -421,6 +450,7 @@ func c15Body(r *Run) {
 			},
 			Marshaler:         marsh,
 			AckOnUnknownEvent: ackUnknown,
+			OnHandle:          evHook,
 		})
 		if perr != nil {
 			r.HarnessErr = perr.Error()
@@ -445,6 +475,7 @@ func c15Body(r *Run) {
 			},
 			Marshaler:         marsh,
 			AckOnUnknownEvent: ackUnknown,
+			OnHandle:          grpHook,
 		})
 		if perr != nil {
 			r.HarnessErr = perr.Error()
